@@ -1,7 +1,15 @@
 package main
 
 import (
+	"encoding/json"
+	"fmt"
+	"os"
+	"path/filepath"
+	"time"
+
+	"verifh/cluster"
 	"verifh/common"
+	"verifh/linz"
 )
 
 type clusterEvidence struct {
@@ -9,8 +17,84 @@ type clusterEvidence struct {
 	extra map[string]any
 }
 
-func clusterChild() {}
+func clusterChild() {
+	var cfg cluster.RaftRun
+	if err := json.Unmarshal([]byte(os.Getenv("C09_CFG")), &cfg); err != nil {
+		panic(err)
+	}
+	cluster.RaftChild(cfg, os.Getenv("C09_OUT"), os.Getenv("C09_SCRATCH"))
+}
 
+// runClusters: real raftkvs clusters (bootstrap.NewServer/NewClient over 127.0.0.1, relaxed mailboxes, real
+// timers and failure detectors), concurrent clients on few keys with unique Put values, small client timeouts so
+// that retransmissions happen, crash-stop of a minority at a logical point; history recorded at the public
+// Client.Run channels with one monotonic clock; operations without a reply stay open.
 func runClusters(r *common.Run, scratch string, distinct *common.Distinct, samples *common.SampleKeeper) clusterEvidence {
-	return clusterEvidence{extra: map[string]any{"runs": 0, "note": "not built yet"}}
+	n := r.Pick(3, 60)
+	ev := clusterEvidence{extra: map[string]any{}}
+	ops, completed, retrans, crashes, unproductive := 0, 0, 0, 0, 0
+	for i := 0; i < n; i++ {
+		rng := r.Rand(fmt.Sprintf("c09-cluster-%d", i))
+		ns := []int{3, 3, 5, 1, 3}[i%5]
+		cfg := cluster.RaftRun{NS: ns, NC: 2 + rng.Intn(4), Persist: i%4 == 3, Seed: r.Seed*100 + int64(i), OpsPerClient: 20 + rng.Intn(15), Keys: 1 + rng.Intn(3), PutPct: 60,
+			Scale: 3, ReqTimeout: time.Duration(12+rng.Intn(25)) * time.Millisecond, Disrupt: time.Duration(rng.Intn(25)) * time.Microsecond, MaxWall: 40 * time.Second}
+		if ns >= 3 && i%3 != 2 {
+			cfg.Crash = 1 + rng.Intn((ns-1)/2)
+			cfg.CrashAfter = 5 + rng.Intn(40)
+		}
+		dir := filepath.Join(scratch, fmt.Sprintf("cl-%d", i))
+		os.MkdirAll(dir, 0o755)
+		out := filepath.Join(dir, "report.jsonl")
+		buf, _ := json.Marshal(cfg)
+		res := common.RunChild("", "cluster", dir, []string{"C09_CFG=" + string(buf), "C09_OUT=" + out, "C09_SCRATCH=" + dir}, cfg.MaxWall+60*time.Second)
+		recs, complete, _ := common.ReadJSONL(out)
+		os.RemoveAll(dir)
+		if !complete || res.TimedOut {
+			r.Inconclusive(fmt.Sprintf("cluster run %d (NS=%d) incomplete: timedout=%v exit=%d %s", i, ns, res.TimedOut, res.ExitCode, tailStr(res.Output, 300)))
+			continue
+		}
+		var h []linz.Op
+		done := 0
+		for _, rec := range recs {
+			switch rec["kind"] {
+			case "op":
+				op := linz.Op{Client: int(rec["client"].(float64)), Put: rec["put"].(bool), Key: rec["key"].(string), Val: rec["val"].(string), Found: rec["found"].(bool),
+					Call: int64(rec["call"].(float64)), Ret: int64(rec["ret"].(float64)), Sends: int(rec["sends"].(float64))}
+				h = append(h, op)
+				if op.Ret >= 0 {
+					done++
+				}
+				if op.Sends > 1 {
+					retrans++
+				}
+			case "stats":
+				crashes += int(rec["crashed"].(float64))
+			}
+		}
+		if done == 0 {
+			unproductive++ // no history to check; not evidence of anything (no liveness claim for arbitrary timeouts)
+			continue
+		}
+		ev.runs++
+		ops += len(h)
+		completed += done
+		classify(r, h, fmt.Sprintf("cluster history of %d operations (run %d, %d servers, %d clients, crash %d)", len(h), i, ns, cfg.NC, cfg.Crash),
+			func() map[string]any { return map[string]any{"setting": "cluster", "cfg": cfg, "history": h} })
+		if done >= 4 && cfg.NC >= 2 {
+			distinct.Add(fmt.Sprintf("cluster-%d-%d-%d", i, ns, done))
+		}
+		if i < 2 {
+			samples.Add(map[string]any{"setting": "cluster", "cfg": cfg, "history_head": h[:min(len(h), 12)], "completed": done})
+		}
+	}
+	ev.extra = map[string]any{"runs_with_history": ev.runs, "operations_recorded": ops, "operations_completed": completed, "operations_retransmitted": retrans,
+		"server_crashes": crashes, "unproductive_runs": unproductive}
+	return ev
+}
+
+func tailStr(s string, n int) string {
+	if len(s) > n {
+		return s[len(s)-n:]
+	}
+	return s
 }
